@@ -2,7 +2,7 @@
 import itertools
 import sys
 
-from common import main
+from common import main, budget
 
 LABELS = ["green", "red", "yellow"]
 CAMS = ["cam_traffic_light_near", "cam_traffic_light_far"]
@@ -118,7 +118,7 @@ def search_shared_ids(seed):
     import random
     rng = random.Random(seed * 11 + 3)
     combos = [(u, c) for u in ("0", "1") for c in CAMS]
-    for _ in range(2500):
+    for _ in range(budget(2500)):
         es = rng.sample(combos, rng.randint(0, 3))
         gs = rng.sample(combos, rng.randint(0, 3))
         est = [(u, rng.choice(LABELS), c) for u, c in es]
